@@ -389,6 +389,9 @@ func writeEvidence(ck *props.Check, prop, tier string, r *core.Result, known map
 	}
 	b, _ := json.MarshalIndent(ev, "", " ")
 	dir := filepath.Join(verifDir(), "evidence")
+	if d := os.Getenv("VERIF_EVIDENCE_DIR"); d != "" {
+		dir = d // runs against a deliberately broken tree (bin/seedtest.sh) must not overwrite the evidence of the real tree
+	}
 	_ = os.MkdirAll(dir, 0o755)
 	_ = os.WriteFile(filepath.Join(dir, prop+".json"), b, 0o644)
 }
